@@ -52,7 +52,7 @@ ASSUMPTIONS = [
 TRUSTED = ['C20: np.matrix / scipy.sparse products of the transfer functions are observed through their results only']
 
 THEOREMS = ['C20_checker_sound', 'C20_check_polyhedron_spec', 'C20_checker_set_not_multiset', 'C20_merge_closed_additive',
-            'C20_merge_closed', 'C20_edge_merge', 'C20_edge_merge_flux', 'C20_nodes_exact', 'C20_mean_constants', 'C20_mean_constants_back', 'C20_sum_total',
+            'C20_merge_closed', 'C20_merge_closed_additive_nodup', 'C20_merge_closed_nodup', 'C20_edge_merge', 'C20_edge_merge_flux', 'C20_nodes_exact', 'C20_mean_constants', 'C20_mean_constants_back', 'C20_sum_total',
             'C20_sum_total_back', 'C20_sum_broadcast_counterexample', 'C20_rows_cols_nonempty']
 
 
